@@ -115,10 +115,11 @@ class Pool:
         self.order.append(name)
         return ('named', name)
 
-    def table(self, entries, hash_=None, ns_name=None, name=None):
-        """entries: [(T, id, active)]"""
+    def table(self, entries, hash_=None, ns_name=None, name=None, defaults=None):
+        """entries: [(T, id, active)]; defaults: {id: C++ initialiser} for entries that are NOT empty in a
+        default-constructed table"""
         name = name or self.fresh('Tb')
-        self.named[name] = dict(kind='table', entries=entries, hash=hash_, ns_name=ns_name)
+        self.named[name] = dict(kind='table', entries=entries, hash=hash_, ns_name=ns_name, defaults=defaults or {})
         self.order.append(name)
         return ('named', name)
 
@@ -133,7 +134,7 @@ class Pool:
             return what == 'float' and t[1] in ('float', 'double')
         if k in ('enum', 'str', 'tracked'):
             return False
-        if k == 'hnd':
+        if k in ('hnd', 'filehnd'):
             return what == 'handle'
         if k in ('vec', 'opt', 'ref'):
             return self.has(t[1], what)
@@ -208,6 +209,8 @@ class Pool:
             return 'nop::Result<%s, %s>' % (q + t[1], self.cpp(t[2]))
         if k == 'var':
             return 'nop::Variant<%s>' % ', '.join(self.cpp(x) for x in t[1])
+        if k == 'filehnd':
+            return 'nop::FileHandle'   # the library's own policy (type tag 1)
         if k == 'hnd':
             return 'nop::Handle<vk::TestHandlePolicy<%d>>' % t[1]
         if k == 'tracked':
@@ -290,7 +293,8 @@ class Pool:
                 for i, (et, eid, active) in enumerate(d['entries']):
                     en = 'e%d' % i
                     names.append(en)
-                    lines.append('  nop::Entry<%s, %d%s> %s;' % (self.cpp(et), eid, '' if active else ', nop::DeletedEntry', en))
+                    init = d.get('defaults', {}).get(eid)
+                    lines.append('  nop::Entry<%s, %d%s> %s%s;' % (self.cpp(et), eid, '' if active else ', nop::DeletedEntry', en, ('{%s}' % init) if init else ''))
                 if d['ns_name'] is not None:
                     lines.append('  NOP_TABLE_NS("%s", %s, %s);' % (d['ns_name'], name, ', '.join(names)))
                 elif d['hash'] is not None:
@@ -427,6 +431,9 @@ def curated():
     A(('arr', string, 3)); A(('arr', P('double'), 1)); A(('carr', string, 3)); A(('arr', ('pair', u8, string), 3))
     A(('vec', ('vec', ('vec', i32))))
     A(('vec', ('arr', u16, 3)))
+    # arrays of enums (ARY of variable-width integers), a structure with more members than a fixint can count
+    A(('arr', ('enum', 'EnU32'), 3)); A(('carr', ('enum', 'EnI16'), 4)); A(('arr', ('enum', 'EnI64'), 2))
+    A(p.struct([('m%d' % i, u8 if i % 7 else u16) for i in range(130)], name='StWide130'))
     # zero-length std::array (a legal type: BIN / ARY with length 0)
     A(('arr', u8, 0)); A(('arr', u32, 0)); A(('arr', string, 0)); A(p.struct([('z', ('arr', u16, 0)), ('n', u8), ('e', ('arr', ('pair', u8, u8), 0))], name='StZeroArr'))
     # wide strings FOLLOWED by further members (the string decoder ensures characters and reads bytes)
@@ -500,6 +507,10 @@ def curated():
     # handles whose type tag needs more than one byte, as the LAST thing of a table entry (bare, as the last member
     # of a structure, in an optional, as the only element of a vector)
     hbig = ('hnd', 70000)
+    # a table whose default-constructed state is not 'all entries empty'
+    A(p.table([(u32, 1, True), (string, 2, True), (u8, 3, True)], hash_=80, name='TbDefaulted', defaults={1: '1000u', 2: '"dflt"'}))
+    fh = ('filehnd',)
+    A(fh); A(('vec', fh)); A(p.struct([('n', u8), ('h', fh), ('s', string)], name='StFileHandle')); A(p.table([(fh, 1, True), (('vec', fh), 2, True)], hash_=79, name='TbFileHandle'))
     A(p.table([(h300, 1, True), (p.struct([('n', u8), ('h', h300)], name='StTailHandle'), 2, True), (('opt', hbig), 3, True), (('vec', hbig), 4, True)],
               hash_=78, name='TbBigTagHandles'))
     return p
